@@ -29,12 +29,13 @@ def run(ctx):
         cases = PF.gen_cases(rng, min(batch, n - b), streams=("iface", "iface-guarded", "iface-lone", "iface-lone"), prefix="i%d" % (b // batch))
         # every pair of some of these programs, witnessed at exactly one kind of conversion site (assignment, function
         # argument, interface-method argument, return), with nil flowing in both directions
-        seenw = set()
-        for i, c in enumerate(cases[:12]):
+        seenw, perkind = set(), {}
+        for i, c in enumerate(cases[:40]):
             for j, (pos, q) in enumerate(PF.conv_witnesses(c.prog)):
                 key = PF.M.prog_line(q)
-                if key not in seenw and len(seenw) < 60:
+                if key not in seenw and perkind.get(pos, 0) < 12:
                     seenw.add(key)
+                    perkind[pos] = perkind.get(pos, 0) + 1
                     cases.append(PF.Case("v%d%02d%02d" % (b // batch, i, j), q, "witness-" + pos))
         r = PF.run_suite(ctx, cases, styles_seed=ctx.seed + 9 + b)
         if "error" in r:
